@@ -27,10 +27,13 @@
 #include <opm/input/eclipse/EclipseState/Grid/RegionSetMatcher.hpp>
 
 #include <algorithm>
+#include <array>
 #include <cmath>
+#include <cstdio>
 #include <filesystem>
 #include <functional>
 #include <iostream>
+#include <limits>
 #include <memory>
 #include <optional>
 #include <set>
@@ -414,10 +417,28 @@ static void emitParse(vh::Sink& sink, const std::vector<UDQToken>& toks, char ta
 }
 
 // ---------------------------------------------------------------------------------------------
+// union operators UADD / UMUL / UMIN / UMAX: the documented meaning of ONE element, written
+// without looking at the implementation: defined in both operands -> the operation; defined in
+// exactly one -> that operand's value; defined in neither -> undefined.  (A result that is not a
+// finite number is undefined, as for every UDQ value.)
+
+static std::optional<double> refUnionElem(const std::string& op, const std::optional<double>& a, const std::optional<double>& b) {
+    auto fin = [](double x) { return std::isfinite(x) ? std::optional<double>(x) : std::nullopt; };
+    if (a && b) {
+        double r = op == "UADD" ? *a + *b : op == "UMUL" ? *a * *b : op == "UMIN" ? std::min(*a, *b) : std::max(*a, *b);
+        return fin(r);
+    }
+    if (a) return fin(*a);
+    if (b) return fin(*b);
+    return std::nullopt;
+}
+
+// ---------------------------------------------------------------------------------------------
 // an independent reference evaluator (property mode), written from the documented semantics:
 // recursive descent with the documented ranks, values = vector<optional<double>> over the wells
-// (size 1 = scalar).  Supports + - * / ^, comparisons < >, parentheses, unary sign, SUM/MAX/MIN/
-// AVEA/NORM1/NORMI/PROD/ABS/DEF over numbers, F-quantities, W-quantities.
+// (size 1 = scalar).  Supports + - * / ^, comparisons < >, the union operators, parentheses, unary
+// sign, SUM/MAX/MIN/AVEA/NORM1/NORMI/PROD/ABS/DEF over numbers, F-quantities, W-quantities
+// (summary quantities and well-level UDQs).
 
 struct RefVal {
     bool isSet = false;
@@ -500,8 +521,9 @@ struct RefEval {
             if (*end == 0) { r = scalar(x); r.isNum = true; r.hasNum = true; }
             else if (t[0] == 'F') { auto it = w.fieldVals.find(t); if (it == w.fieldVals.end()) { bad = true; return scalar(std::nullopt); } r = scalar(it->second); }
             else if (t[0] == 'W') {
+                // summary quantity, or a well-level UDQ (WU…) held in the UDQ state
                 auto it = w.wellVars.find(t);
-                if (it == w.wellVars.end()) { bad = true; return scalar(std::nullopt); }
+                if (it == w.wellVars.end()) { it = w.udqWell.find(t); if (it == w.udqWell.end()) { bad = true; return scalar(std::nullopt); } }
                 r.isSet = true;
                 for (auto& well : w.wells) { auto jt = it->second.find(well); r.v.push_back(jt == it->second.end() ? std::nullopt : fin(jt->second)); }
             }
@@ -554,7 +576,33 @@ struct RefEval {
         }
         return a;
     }
-    RefVal setop() { return cmp(); }
+    // union operators: lowest rank; a chain `a U1 b U2 c` groups from the right, as `^` and the
+    // comparisons do in the implementation (accepted convention, see Props/C17.lean).  Element-wise
+    // `refUnionElem`; both operands must have the same size (no broadcasting of scalar quantities):
+    // set with set, scalar with scalar, or a pure number expression, which takes the size of the
+    // DEFINE's target type (checked by the caller through the two flags).
+    bool unionNumScalar = false;            // number literal beside a scalar quantity: sizes agree only in a scalar DEFINE
+    bool unionNumSet = false;               // number literal beside a set: sizes agree only in a set DEFINE
+    RefVal setop() {
+        RefVal a = cmp();
+        if (peek("UADD") || peek("UMUL") || peek("UMIN") || peek("UMAX")) {
+            std::string op = toks[pos]; ++pos;
+            RefVal b = setop();
+            if (a.isSet != b.isSet) {
+                const RefVal& s = a.isSet ? b : a;
+                if (!s.isNum) { bad = true; return scalar(std::nullopt); }     // the implementation throws "incompatible size"
+                unionNumSet = true;
+            } else if (!a.isSet && (a.hasNum || b.hasNum) && !(a.isNum && b.isNum)) unionNumScalar = true;
+            RefVal r;
+            r.isSet = a.isSet || b.isSet;
+            r.isNum = a.isNum && b.isNum;
+            r.hasNum = a.hasNum || b.hasNum;
+            size_t n = r.isSet ? w.wells.size() : 1;
+            for (size_t i = 0; i < n; ++i) r.v.push_back(refUnionElem(op, a.isSet ? a.v[i] : a.v[0], b.isSet ? b.v[i] : b.v[0]));
+            return r;
+        }
+        return a;
+    }
 };
 
 static bool closeEnough(double a, double b) {
@@ -567,16 +615,17 @@ static bool closeEnough(double a, double b) {
 static Strs propExpr(vh::Rng& rng, const World& w, bool set, int depth) {
     auto cat = [](Strs& a, const Strs& b) { a.insert(a.end(), b.begin(), b.end()); };
     if (depth <= 0 || rng.coin(1, 4)) {
-        if (set && rng.coin(2, 3)) return { rng.coin() ? "WOPR" : "WWPR" };
+        if (set && rng.coin(2, 3)) return { rng.pick(Strs{ "WOPR", "WWPR", "WOPR", "WWPR", "WUA", "WUB" }) };
         if (rng.coin(1, 4)) return { rng.coin() ? "FOPR" : "FWPR" };
         return { rng.pick(kValues) };
     }
     int c = static_cast<int>(rng.below(10));
     if (c < 6) {
-        static const Strs ops = { "+", "-", "*", "/", "^", "+", "-", "*", "<", ">" };
+        static const Strs ops = { "+", "-", "*", "/", "^", "+", "-", "*", "<", ">", "UADD", "UMUL", "UMIN", "UMAX" };
         std::string op = rng.pick(ops);
         bool s1 = set && rng.coin(3, 4), s2 = set && rng.coin(3, 4);
         if (op == "^") { s1 = set; s2 = set; }
+        if (op[0] == 'U') { s1 = set; s2 = set; }       // union operators do not broadcast: operands of the same size
         Strs out = propExpr(rng, w, s1, depth - 1);
         out.push_back(op);
         cat(out, propExpr(rng, w, s2, depth - 1));
@@ -593,6 +642,120 @@ static Strs propExpr(vh::Rng& rng, const World& w, bool set, int depth) {
     Strs out = { "-" };
     if (rng.coin()) cat(out, propExpr(rng, w, set, 0));
     else { out.push_back("("); cat(out, propExpr(rng, w, set, depth - 1)); out.push_back(")"); }
+    return out;
+}
+
+// ---------------------------------------------------------------------------------------------
+// value classes of the union probes: 0 negative, 1 zero, 2 positive, 3 tiny (|x| <= 1e-300, incl.
+// the smallest normal and the smallest subnormal double), 4 huge (|x| >= 1e154, incl. +-DBL_MAX)
+static double unionValue(vh::Rng& rng, int cls, int stream = 0) {
+    using L = std::numeric_limits<double>;
+    static const std::vector<std::vector<double>> vals = {
+        { -5.0, -1.5, -1.0, -7.0, -0.001, -100.0, -2.0 },
+        { 0.0 },
+        { 2.0, 0.5, 7.0, 1.0, 3.25, 1000.0 },
+        { L::min(), -L::min(), 1e-300, -1e-300, L::denorm_min(), -L::denorm_min(), 1e-310, -3e-308 },
+        { 1e300, -1e300, L::max(), L::lowest(), 1e154, -3e200, 1e308 } };
+    // every value of a class comes up in turn (random starting point), separately for the values of
+    // one-sided elements (stream 1) and of elements defined in both operands (stream 2): the ten
+    // one-sided draws per class of a systematic sweep contain every value of the class
+    const auto& v = vals[static_cast<size_t>(cls)];
+    if (stream == 0) return rng.pick(v);
+    static std::vector<size_t> next[2];
+    auto& nx = next[stream - 1];
+    if (nx.empty()) for (auto& c : vals) nx.push_back(rng.below(c.size()));
+    return v[nx[static_cast<size_t>(cls)]++ % v.size()];
+}
+
+static std::string g17(double x) { char b[40]; std::snprintf(b, sizeof b, "%.17g", x); return b; }
+static std::string showOpt(const std::optional<double>& x) { return x ? g17(*x) : std::string("undef"); }
+
+// one union test case: a set kind ('W' well, 'G' group, 'F' field scalar), element names and three
+// operand vectors (A, B, C) with their definedness
+struct UnionCase {
+    char kind = 'W';
+    Strs names;
+    std::vector<std::optional<double>> a, b, c;
+    std::string A() const { return std::string(1, kind) + "UA"; }
+    std::string B() const { return std::string(1, kind) + "UB"; }
+    std::string C() const { return std::string(1, kind) + "UC"; }
+    World world() const {
+        World w;
+        auto fill = [&](std::map<std::string, double>& m, const std::vector<std::optional<double>>& v) {
+            for (size_t i = 0; i < names.size(); ++i) if (v[i]) m[names[i]] = *v[i];
+        };
+        w.fieldVals["FOPR"] = 1.0; w.fieldVals["FWPR"] = 2.0;
+        if (kind == 'W') {
+            w.wells = names; w.groups = { "G1" };
+            fill(w.udqWell["WUA"], a); fill(w.udqWell["WUB"], b); fill(w.udqWell["WUC"], c);
+            // the same operands as summary quantities (undefined = the well has no such value)
+            fill(w.wellVars["WOPR"], a); fill(w.wellVars["WWPR"], b);
+            for (const char* v : { "WOPR", "WWPR" }) if (w.wellVars[v].empty()) w.wellVars.erase(v);   // no well has it: not a summary quantity at all
+            w.groupVars["GOPR"]["G1"] = 1.0;
+        } else if (kind == 'G') {
+            w.wells = { "P1" }; w.groups = names;
+            fill(w.udqGroup["GUA"], a); fill(w.udqGroup["GUB"], b); fill(w.udqGroup["GUC"], c);
+            for (auto& g : names) w.groupVars["GOPR"][g] = 1.0;      // every group known to the summary state
+            w.wellVars["WOPR"]["P1"] = 1.0; w.wellVars["WWPR"]["P1"] = 1.0;
+        } else {
+            w.wells = { "P1" }; w.groups = { "G1" };
+            if (a[0]) w.udqScalars["FUA"] = *a[0];
+            if (b[0]) w.udqScalars["FUB"] = *b[0];
+            if (c[0]) w.udqScalars["FUC"] = *c[0];
+            w.groupVars["GOPR"]["G1"] = 1.0;
+            w.wellVars["WOPR"]["P1"] = 1.0; w.wellVars["WWPR"]["P1"] = 1.0;
+        }
+        return w;
+    }
+    std::string show() const {
+        std::string s = std::string("kind=") + kind + " elements:";
+        for (size_t i = 0; i < names.size(); ++i)
+            s += " " + (kind == 'F' ? std::string("-") : names[i]) + "(A=" + showOpt(a[i]) + ",B=" + showOpt(b[i]) + ",C=" + showOpt(c[i]) + ")";
+        return s;
+    }
+};
+
+// element `i` gets definedness pattern `pat` (0 both, 1 left only, 2 right only, 3 neither) and
+// value classes `ca`, `cb` for A and B; C is random
+static void unionElement(vh::Rng& rng, UnionCase& uc, int pat, int ca, int cb) {
+    const int stream = pat == 0 ? 2 : 1;
+    uc.a.push_back((pat == 0 || pat == 1) ? std::optional<double>(unionValue(rng, ca, stream)) : std::nullopt);
+    uc.b.push_back((pat == 0 || pat == 2) ? std::optional<double>(unionValue(rng, cb, stream)) : std::nullopt);
+    uc.c.push_back(rng.coin(2, 3) ? std::optional<double>(unionValue(rng, static_cast<int>(rng.below(5)))) : std::nullopt);
+}
+
+// all 4 x 5 x 5 combinations laid out over sets of `per` elements (the last one may be shorter),
+// in a random order, followed by `extra` random cases
+static std::vector<UnionCase> unionCases(vh::Rng& rng, char kind, size_t per, int extra) {
+    static const Strs wn = { "P1", "P2", "PA", "I1", "I2", "PB3", "Q7" };
+    static const Strs gn = { "G1", "G2", "GA", "H1", "FIELD", "G3" };
+    const Strs& pool = kind == 'G' ? gn : wn;
+    if (kind == 'F') per = 1;
+    per = std::min(per, pool.size());
+    std::vector<std::array<int, 3>> combos;
+    for (int p = 0; p < 4; ++p) for (int ca = 0; ca < 5; ++ca) for (int cb = 0; cb < 5; ++cb) combos.push_back({ p, ca, cb });
+    for (size_t i = combos.size(); i > 1; --i) std::swap(combos[i - 1], combos[rng.below(i)]);
+    std::vector<UnionCase> out;
+    auto names = [&](size_t n) {
+        Strs v(pool.begin(), pool.begin() + static_cast<long>(n));
+        for (size_t i = v.size(); i > 1; --i) std::swap(v[i - 1], v[rng.below(i)]);      // insertion order of the wells is free
+        if (kind == 'F') v = { "" };
+        return v;
+    };
+    for (size_t k = 0; k < combos.size(); k += per) {
+        UnionCase uc; uc.kind = kind;
+        size_t n = std::min(per, combos.size() - k);
+        uc.names = names(n);
+        for (size_t i = 0; i < n; ++i) unionElement(rng, uc, combos[k + i][0], combos[k + i][1], combos[k + i][2]);
+        out.push_back(uc);
+    }
+    for (int e = 0; e < extra; ++e) {
+        UnionCase uc; uc.kind = kind;
+        size_t n = kind == 'F' ? 1 : static_cast<size_t>(rng.range(1, static_cast<int>(pool.size())));
+        uc.names = names(n);
+        for (size_t i = 0; i < n; ++i) unionElement(rng, uc, static_cast<int>(rng.below(4)), static_cast<int>(rng.below(5)), static_cast<int>(rng.below(5)));
+        out.push_back(uc);
+    }
     return out;
 }
 
@@ -750,6 +913,35 @@ int main(int argc, char** argv) {
             }
         }
         // (3) evaluation: grammar expressions through UDQDefine(...).eval(context)
+        auto emitEval = [&](const World& w, char target, const Strs& deck, const std::set<std::string>& patterns, bool libm, const std::string& tag) {
+            Env env(w);
+            KeywordLocation loc;
+            ErrorGuard errors;
+            auto pc = lenientTypes();
+            std::string ans, toksProto;
+            bool evaluable = true, skip = false;
+            try {
+                UDQDefine def(env.udqp, std::string(1, target) + "UX", 0, loc, deck, pc, errors);
+                for (auto& t : def.tokens()) toksProto += " " + tokProto(t);
+                if (wouldRunOffTheEnd(def.tokens())) skip = true;
+                DefineReader dr;
+                def.serializeOp(dr);
+                std::string tree = showTree(*dr.ast, evaluable);
+                NodeInfo top = readNode(*dr.ast);
+                if (top.type == UDQTokenType::number && def.tokens().size() != 1) skip = true;   // type-error replacement
+                if (!skip && evaluable) {
+                    sink.emit("udq.parse" + toksProto, "ast " + tree);
+                    sink.count("parse.define");
+                    try { ans = "ok " + showSet(def.eval(*env.ctx)); } catch (const std::exception&) { ans = "err"; }
+                } else skip = true;
+            } catch (const std::exception&) { skip = true; }
+            errors.clear();
+            if (skip) { sink.count(tag + ".skipped"); return; }
+            sink.emit(std::string("udq.eval ") + target + " " + worldProto(w, env, patterns) + " |" + toksProto, ans);
+            sink.count(tag + ".target." + target);
+            sink.count(ans == "err" ? tag + ".answer.err" : tag + ".answer.ok");
+            if (libm) sink.count(tag + ".uses_libm");
+        };
         {
             int nworlds = thorough ? 120 : 30, per = thorough ? 60 : 40;
             for (int wi = 0; wi < nworlds; ++wi) {
@@ -760,33 +952,34 @@ int main(int argc, char** argv) {
                     char setKind = target == 'G' ? 'G' : 'W';
                     Gen g(rng, w, setKind);
                     Strs deck = g.expr(target == 'F' ? 'S' : (rng.coin(1, 5) ? 'S' : setKind), rng.range(1, 5));
-                    Env env(w);
-                    KeywordLocation loc;
-                    ErrorGuard errors;
-                    auto pc = lenientTypes();
-                    std::string ans, toksProto;
-                    bool evaluable = true, skip = false;
-                    try {
-                        UDQDefine def(env.udqp, std::string(1, target) + "UX", 0, loc, deck, pc, errors);
-                        for (auto& t : def.tokens()) toksProto += " " + tokProto(t);
-                        if (wouldRunOffTheEnd(def.tokens())) skip = true;
-                        DefineReader dr;
-                        def.serializeOp(dr);
-                        std::string tree = showTree(*dr.ast, evaluable);
-                        NodeInfo top = readNode(*dr.ast);
-                        if (top.type == UDQTokenType::number && def.tokens().size() != 1) skip = true;   // type-error replacement
-                        if (!skip && evaluable) {
-                            sink.emit("udq.parse" + toksProto, "ast " + tree);
-                            sink.count("parse.define");
-                            try { ans = "ok " + showSet(def.eval(*env.ctx)); } catch (const std::exception&) { ans = "err"; }
-                        } else skip = true;
-                    } catch (const std::exception&) { skip = true; }
-                    errors.clear();
-                    if (skip) { sink.count("eval.skipped"); continue; }
-                    sink.emit(std::string("udq.eval ") + target + " " + worldProto(w, env, g.patterns) + " |" + toksProto, ans);
-                    sink.count(std::string("eval.target.") + target);
-                    sink.count(ans == "err" ? "eval.answer.err" : "eval.answer.ok");
-                    if (g.libm) sink.count("eval.uses_libm");
+                    emitEval(w, target, deck, g.patterns, g.libm, "eval");
+                }
+            }
+        }
+        // (3u) the union operators on well / group sets and field scalars: every definedness pattern
+        //      (both / left only / right only / neither) x value classes negative, zero, positive,
+        //      tiny, huge of either operand; plain, swapped, with arithmetic around, with a number
+        //      (one-sided NEGATIVE and ZERO values are in every run by construction)
+        {
+            const int extra = thorough ? 60 : 10;
+            for (char kind : { 'W', 'G', 'F' }) {
+                for (const UnionCase& uc : unionCases(rng, kind, static_cast<size_t>(rng.range(3, 6)), extra)) {
+                    World w = uc.world();
+                    const std::string A = uc.A(), B = uc.B(), C = uc.C();
+                    for (const std::string& op : kUnion) {
+                        emitEval(w, kind, { A, op, B }, {}, false, "union");
+                        emitEval(w, kind, { B, op, A }, {}, false, "union");
+                        switch (rng.below(6)) {
+                        case 0: emitEval(w, kind, { A, "*", "2", op, B, "-", "1" }, {}, false, "union"); break;
+                        case 1: emitEval(w, kind, { "-", A, op, "-", B }, {}, false, "union"); break;
+                        case 2: emitEval(w, kind, { A, op, rng.pick(Strs{ "0", "2.5", "1e-300" }) }, {}, false, "union"); break;
+                        case 3: emitEval(w, kind, { "-", "1", op, A }, {}, false, "union"); break;
+                        case 4: emitEval(w, kind, { A, op, B, rng.pick(kUnion), C }, {}, false, "union"); break;
+                        default: emitEval(w, kind, { "(", A, op, B, ")", rng.pick(kUnion), C }, {}, false, "union"); break;
+                        }
+                        if (kind == 'W' && w.wellVars.count("WOPR") && w.wellVars.count("WWPR") && rng.coin(1, 3))
+                            emitEval(w, kind, { "WOPR", op, "WWPR" }, {}, false, "union");
+                    }
                 }
             }
         }
@@ -1083,14 +1276,19 @@ int main(int argc, char** argv) {
         int nworlds = thorough ? 200 : 50, per = thorough ? 80 : 40;
         for (int wi = 0; wi < nworlds; ++wi) {
             World w = makeWorld(rng, rng.coin());
-            w.udqScalars.clear(); w.udqWell.clear(); w.udqGroup.clear();
+            w.udqScalars.clear(); w.udqGroup.clear();
+            // two well-level UDQs with undefined elements (operands of the union operators)
+            w.udqWell.clear(); w.udqWell["WUA"]; w.udqWell["WUB"];
+            for (const char* q : { "WUA", "WUB" }) for (auto& well : w.wells) if (rng.coin()) w.udqWell[q][well] = randVal(rng);
             for (int k = 0; k < per; ++k) {
                 bool set = rng.coin(2, 3);
                 Strs deck = propExpr(rng, w, set, rng.range(1, 5));
                 RefEval ref(deck, w);
                 RefVal rv = ref.setop();
                 if (ref.bad || ref.pos != deck.size() || ref.powSetScalar || (ref.powNumScalar && rv.isSet)
-                    || (ref.powNumSet && !rv.isSet) || (ref.redOfNum && rv.isSet)) { ++stats["ref_out_of_domain"]; continue; }
+                    || (ref.powNumSet && !rv.isSet) || (ref.redOfNum && rv.isSet)
+                    || (ref.unionNumScalar && rv.isSet) || (ref.unionNumSet && !rv.isSet)) { ++stats["ref_out_of_domain"]; continue; }
+                for (auto& t : deck) if (t[0] == 'U') { ++stats["ref_eval.with_union"]; break; }
                 Env env(w);
                 auto res = realEval(deck, rv.isSet ? 'W' : 'F', env);
                 std::string key = "ref-eval";
@@ -1205,6 +1403,149 @@ int main(int argc, char** argv) {
             expect("witness", { "2", "^", "3", "^", "2" }, 'F', { 512.0 });
             expect("witness", { "16", "-", "8", "-", "4" }, 'F', { 4.0 });
             expect("witness", { "16", "/", "8", "/", "4" }, 'F', { 0.5 });
+        }
+        // (u) the set union operators UADD / UMUL / UMIN / UMAX on well sets, group sets and field
+        //     scalars: every definedness pattern (both / left only / right only / neither) x value
+        //     classes (negative, zero, positive, tiny, huge) of either operand.
+        //     union-ref:  real UDQDefine::eval and the registered UDQBinaryFunction vs `refUnionElem`;
+        //     union-law:  algebraic laws stated on the real results alone (no reference).
+        {
+            std::map<std::string, int> nreported;
+            auto failU = [&](const std::string& key, const std::string& detail) {
+                ++stats[key + ".instances"];
+                if (++nreported[key] <= 3) log.fail(key, detail);     // first witnesses only, the rest is counted
+            };
+            using OptV = std::vector<std::optional<double>>;
+            auto same = [](const std::optional<double>& x, const std::optional<double>& y) {
+                return x.has_value() == y.has_value() && (!x || *x == *y);
+            };
+            auto finO = [](double x) { return std::isfinite(x) ? std::optional<double>(x) : std::nullopt; };
+            auto mapO = [&](const OptV& v, const std::function<double(double)>& f) {
+                OptV r; for (auto& x : v) r.push_back(x ? finO(f(*x)) : std::nullopt); return r;
+            };
+            const int extra = thorough ? 200 : 40;
+            for (char kind : { 'W', 'G', 'F' }) {
+                const auto cases = unionCases(rng, kind, static_cast<size_t>(rng.range(3, 6)), extra);
+                for (const UnionCase& uc : cases) {
+                    World w = uc.world();
+                    Env env(w);
+                    const size_t n = uc.names.size();
+                    const std::string K(1, kind);
+                    // value vector of an expression on the real code, element by NAME; nullopt = exception
+                    auto ev = [&](const Strs& deck) -> std::optional<OptV> {
+                        try {
+                            auto r = realEval(deck, kind, env);
+                            if (!r || r->size() != n) return std::nullopt;
+                            OptV v;
+                            for (size_t i = 0; i < n; ++i) {
+                                const auto& s = kind == 'F' ? (*r)[0] : (*r)[uc.names[i]];
+                                v.push_back(s.defined() ? std::optional<double>(s.get()) : std::nullopt);
+                            }
+                            return v;
+                        } catch (...) { return std::nullopt; }
+                    };
+                    auto report = [&](const std::string& key, const std::string& what, const std::optional<OptV>& got, const OptV& want) {
+                        bool okk = got.has_value();
+                        size_t bad = 0;
+                        if (okk) for (size_t i = 0; i < n; ++i) if (!same((*got)[i], want[i])) { okk = false; bad = i; break; }
+                        if (okk) { log.ok(); ++stats[key + "." + K]; return; }
+                        failU(key, what + " : " + (got ? "element '" + uc.names[bad] + "' impl=" + showOpt((*got)[bad]) + " expected=" + showOpt(want[bad]) : std::string("impl=exception"))
+                              + " | " + uc.show() + " seed=" + std::to_string(seed));
+                    };
+                    auto define = [&](const Strs& deck) { return "DEFINE " + K + "UX " + joinStrs(deck); };
+                    auto unionRef = [&](const std::string& op, const OptV& x, const OptV& y) {
+                        OptV r; for (size_t i = 0; i < n; ++i) r.push_back(refUnionElem(op, x[i], y[i])); return r;
+                    };
+                    const std::string A = uc.A(), B = uc.B(), C = uc.C();
+                    // the operands as the real code sees them (must be what was put into the state)
+                    const auto ra = ev({ A }), rb = ev({ B }), rc = ev({ C });
+                    report("union-ref.operand", define({ A }), ra, uc.a);
+                    report("union-ref.operand", define({ B }), rb, uc.b);
+                    if (!ra || !rb || !rc) continue;
+                    // MAX / MIN over the defined elements of the same operands (all-negative, all-zero,
+                    // tiny and huge sets included); the scalar result goes to every element of the target
+                    if (kind != 'F') for (const OptV* v : { &uc.a, &uc.b }) for (const std::string fn : { "MAX", "MIN" }) {
+                        std::optional<double> m;
+                        for (auto& x : *v) if (x) m = !m ? *x : (fn == "MAX" ? std::max(*m, *x) : std::min(*m, *x));
+                        const Strs deck = { fn, "(", v == &uc.a ? A : B, ")" };
+                        report("reduction-ref", define(deck), ev(deck), OptV(n, m));
+                    }
+                    for (const std::string& op : kUnion) {
+                        // ---- against the reference
+                        auto refCheck = [&](const Strs& deck, const OptV& want) { report("union-ref", define(deck), ev(deck), want); };
+                        refCheck({ A, op, B }, unionRef(op, uc.a, uc.b));
+                        refCheck({ B, op, A }, unionRef(op, uc.b, uc.a));
+                        refCheck({ "(", A, ")", op, "(", B, ")" }, unionRef(op, uc.a, uc.b));
+                        // union operators bind weakest: A * 2 op B - 1  =  (A * 2) op (B - 1)
+                        refCheck({ A, "*", "2", op, B, "-", "1" },
+                                 unionRef(op, mapO(uc.a, [](double x) { return x * 2.0; }), mapO(uc.b, [](double x) { return x - 1.0; })));
+                        refCheck({ "-", A, op, "-", B }, unionRef(op, mapO(uc.a, [](double x) { return -x; }), mapO(uc.b, [](double x) { return -x; })));
+                        // a number is defined for every element
+                        for (double c : { 0.0, 2.5, -1.0 }) {
+                            Strs num = c < 0 ? Strs{ "-", "1" } : Strs{ c == 0.0 ? "0" : "2.5" };
+                            OptV cs(n, std::optional<double>(c));
+                            Strs d1 = { A, op }; d1.insert(d1.end(), num.begin(), num.end());
+                            Strs d2 = num; d2.push_back(op); d2.push_back(A);
+                            refCheck(d1, unionRef(op, uc.a, cs));
+                            refCheck(d2, unionRef(op, cs, uc.a));
+                        }
+                        // the same operands as summary quantities (a well without the value = undefined)
+                        if (kind == 'W' && w.wellVars.count("WOPR") && w.wellVars.count("WWPR")) {
+                            refCheck({ "WOPR", op, "WWPR" }, unionRef(op, uc.a, uc.b));
+                            refCheck({ "WWPR", op, "WOPR" }, unionRef(op, uc.b, uc.a));
+                        }
+                        // the registered function object itself, on hand-made sets
+                        {
+                            auto mk = [&](const std::string& nm, const OptV& v) {
+                                UDQSet s = kind == 'W' ? UDQSet::wells(nm, uc.names) : kind == 'G' ? UDQSet::groups(nm, uc.names) : UDQSet::scalar(nm, v[0]);
+                                if (kind != 'F') for (size_t i = 0; i < n; ++i) if (v[i]) s.assign(uc.names[i], *v[i]);
+                                return s;
+                            };
+                            std::optional<OptV> got;
+                            try {
+                                const auto& func = dynamic_cast<const UDQBinaryFunction&>(env.udqft.get(op));
+                                UDQSet r = func.eval(mk(A, uc.a), mk(B, uc.b));
+                                if (r.size() == n) { OptV v; for (size_t i = 0; i < n; ++i) v.push_back(r[i].defined() ? std::optional<double>(r[i].get()) : std::nullopt); got = v; }
+                            } catch (...) {}
+                            report("union-ref.function", "UDQFunctionTable::get(" + op + ").eval(A, B)", got, unionRef(op, uc.a, uc.b));
+                        }
+                        // ---- laws on the real results alone
+                        const auto ab = ev({ A, op, B }), ba = ev({ B, op, A });
+                        if (!ab || !ba) { failU("union-law.commutative", define({ A, op, B }) + " : exception | " + uc.show()); continue; }
+                        report("union-law.commutative", define({ A, op, B }) + " vs " + define({ B, op, A }), ab, *ba);
+                        // an operand without any defined element is the identity of every union operator
+                        report("union-law.undefined-operand", define({ A, op, "(", B, "/", "0", ")" }) + " must equal " + A, ev({ A, op, "(", B, "/", "0", ")" }), *ra);
+                        report("union-law.undefined-operand", define({ "(", B, "/", "0", ")", op, A }) + " must equal " + A, ev({ "(", B, "/", "0", ")", op, A }), *ra);
+                        // element-wise: exactly one operand defined -> its value; none -> undefined;
+                        // both -> UADD/UMUL agree with + and *, UMAX/UMIN pick one of the two and bound both
+                        const auto plain = op == "UADD" ? ev({ A, "+", B }) : op == "UMUL" ? ev({ A, "*", B }) : std::optional<OptV>();
+                        {
+                            bool okk = true; std::string why;
+                            for (size_t i = 0; i < n && okk; ++i) {
+                                const auto &x = (*ra)[i], &y = (*rb)[i], &z = (*ab)[i];
+                                auto say = [&](const std::string& s) { okk = false; why = "element '" + uc.names[i] + "' A=" + showOpt(x) + " B=" + showOpt(y) + " result=" + showOpt(z) + ": " + s; };
+                                if (!x && !y) { if (z) say("undefined in both operands but defined in the result"); }
+                                else if (x && !y) { if (!same(z, x)) say("defined only in A: the result must be A's value"); }
+                                else if (!x && y) { if (!same(z, y)) say("defined only in B: the result must be B's value"); }
+                                else if (op == "UMAX") { if (!z || *z < *x || *z < *y || (*z != *x && *z != *y)) say("UMAX must be one of the operands and >= both"); }
+                                else if (op == "UMIN") { if (!z || *z > *x || *z > *y || (*z != *x && *z != *y)) say("UMIN must be one of the operands and <= both"); }
+                                else if (plain && !same(z, (*plain)[i])) say("both defined: must agree with A " + std::string(op == "UADD" ? "+" : "*") + " B = " + showOpt((*plain)[i]));
+                            }
+                            if (okk) { log.ok(); ++stats["union-law.elementwise." + K]; }
+                            else failU("union-law.elementwise", define({ A, op, B }) + " : " + why + " | " + uc.show() + " seed=" + std::to_string(seed));
+                        }
+                        if (op == "UMAX" || op == "UMIN") {
+                            const std::string dual = op == "UMAX" ? "UMIN" : "UMAX";
+                            report("union-law.idempotent", define({ A, op, A }) + " must equal " + A, ev({ A, op, A }), *ra);
+                            report("union-law.duality", define({ "-", "(", "-", A, dual, "-", B, ")" }) + " must equal " + define({ A, op, B }),
+                                   ev({ "-", "(", "-", A, dual, "-", B, ")" }), *ab);
+                            const auto l = ev({ "(", A, op, B, ")", op, C }), r = ev({ A, op, "(", B, op, C, ")" });
+                            if (l && r) report("union-law.associative", define({ "(", A, op, B, ")", op, C }) + " vs " + define({ A, op, "(", B, op, C, ")" }), l, *r);
+                            else failU("union-law.associative", define({ "(", A, op, B, ")", op, C }) + " : exception | " + uc.show());
+                        }
+                    }
+                }
+            }
         }
         // (c) ASSIGN / DEFINE / UPDATE: the last applicable record decides (stated on UDQConfig alone)
         {
